@@ -815,6 +815,7 @@ func ruleHonestStep(w *World, r *Run, a *updAnalysis, rule string) {
 	for _, c := range classes {
 		success := 0
 		considered := 0
+		condNote := ""
 		var deadEnd *updPath
 		for _, v := range a.paths {
 			if v.prev == nil || v.next == nil || v.known != 1 {
@@ -877,13 +878,32 @@ func ruleHonestStep(w *World, r *Run, a *updAnalysis, rule string) {
 				continue
 			}
 			considered++
-			if v.outcome == "accepted" {
+			// success must follow from honesty alone: a path whose success also needs a predicate that honesty does not
+			// imply (e.g. equality of the whole signed text) does not count
+			extraCond := ""
+			for _, f := range s.Facts {
+				t := f.T
+				switch {
+				case t.Kind == "lookup" && t.Name == "ok":
+				case t.Kind == "binop" && t.Name == "==" && (t.Args[0].Kind == "nil" || t.Args[1].Kind == "nil"):
+				case t.Kind == "binop" && (t.Name == "==" || t.Name == "<") && isIntTerm(t.Args[0]) && isIntTerm(t.Args[1]):
+				case t.Kind == "call" && (t.Name == cBytesEq || t.Name == cCTCmp) && len(t.Args) == 4 && ((t.Args[2] == hashOf(v.prev) && t.Args[3] == hashOf(v.next)) || (t.Args[3] == hashOf(v.prev) && t.Args[2] == hashOf(v.next))):
+				default:
+					extraCond = short(t.String())
+				}
+			}
+			if v.outcome == "accepted" && extraCond == "" {
 				success++
+			} else if v.outcome == "accepted" {
+				condNote = extraCond
 			}
 		}
 		key := fmt.Sprintf("%s | honest step | order-class %s", fnUpdate, c.name)
 		pos := ""
 		msg := fmt.Sprintf("no path accepts an honest update in ordering class %s (%d honest paths considered)", c.name, considered)
+		if condNote != "" {
+			msg += "; acceptance additionally depends on " + condNote + ", which an honest request need not satisfy"
+		}
 		if deadEnd != nil && len(deadEnd.verifies) > 0 {
 			pos = w.pos(deadEnd.verifies[0].Pos)
 			msg += ": proof.VerifyConsistency is reached with size1 == 0 < size2, which it always rejects"
